@@ -631,6 +631,8 @@ def run(ctx):
     rng = random.Random(ctx.seed)
 
     # ---- 1. the model ------------------------------------------------------
+    # unbounded: TLAPS proves the four theorems of the "round, then split" design for every declination and RA
+    ctx.cov["tlaps_obligations_proved"] = common.run_tlapm("SexaProof", os.path.join(ctx.workdir, "tlaps"))
     W, stride = (20, 30) if quick else (20, 1)
     res = ctx.tlc("MC_Sexa", mc_cfg(W, stride, "carry", False), name="MC_Sexa", coverage=quick)
     if quick:
